@@ -17,6 +17,29 @@ CHECKS = {
   "DESIGN.md 4 C14"),
 }
 
+CHECKS.update({
+ "C01": ("model_checking", "approvex/cisco",
+  "explicit-state exploration: exhaustive enumeration of (device,target) pairs over small colliding alphabets + corpus product + BFS chain of approves; real planner as transition function; reference ASA model executes the script; oracle = semantic view equality + silent second compare",
+  "All pairs of the spaces acl, grp, rt, bind, spell, vpn, corpus and a breadth-first chain of approves (states reached only through earlier approves) are run through the real planner; the script is executed on an independent ASA model and the managed view (anchors with references expanded by content, so generated names do not matter) is compared with the target's; the printed result is compared again and must yield an empty script. Exhaustive inside the stated alphabets.",
+  "Trusts the reference ASA model and its semantic view (validated on the repository's 172 ASA/IOS triples); content outside the alphabets is not covered; targets with IPv6/raw parts are checked by the second-compare oracle only.",
+  "DESIGN.md 4 C01"),
+ "C02": ("model_checking", "approvex/cisco",
+  "explicit-state exploration as C01 with the IOS flavour of the device model (sequence numbers, resequence, sub-modes); oracle = per-interface ACLs as sequences of same-action runs (sets) + routes per managed VRF + silent second compare for both print forms",
+  "All pairs of the IOS spaces acl (block structured, with/without IOS-XE sequence numbers), rt, vrf, intf, crypto, corpus and a chain of approves; script executed on the IOS model; semantic view compares ACLs as sequences of maximal same-action runs. Exhaustive inside the alphabets.",
+  "Trusts the reference IOS model; 'match address' of IOS crypto maps is unmanaged (as the tool documents).",
+  "DESIGN.md 4 C02"),
+ "C08": ("model_checking", "approvex/cisco",
+  "explicit-state exploration: every command of every script of the C01/C02 spaces (and chain states) is executed at its position on a device model that enforces referential integrity, duplicate-entry, line-number and configuration-mode rules",
+  "The device models reject exactly the classes of commands the statement lists; each script line of each enumerated pair is executed in order and the first rejection is a violation. ASA and IOS now; PAN-OS and NSX are added with their models.",
+  "Trusts that the models are not stricter than the devices in other respects (checked by executing all expected outputs of the repository's tests: none is rejected).",
+  "DESIGN.md 4 C08"),
+ "C10": ("model_checking", "approvex/cisco",
+  "crash-point enumeration inside explicit-state exploration: every proper prefix of every script (cut also between the halves of a joined line and inside sub-mode blocks) yields a state that is fed back to the real planner; second script executed on the model, result compared semantically, third compare silent",
+  "For every pair of the reduced spaces and every cut position k the device model state after k commands is printed and given to the planner again; the resumed run must be accepted by the model and must converge. Exhaustive over pairs x cut positions inside the alphabets.",
+  "Crash model: commands before the cut have fully taken effect, the cut command and later ones not at all.",
+  "DESIGN.md 4 C10"),
+})
+
 NOT_YET = "check not built yet in this round (design in DESIGN.md section 4); no technique switch intended"
 
 def main():
